@@ -264,6 +264,14 @@ def run(ctx):
            {'seq': {'template': tpl and tpl.line, 'input': inp and inp.line, 'populate': pop.line, 'make_header': mkh.line}},
            node=pop.node)
     hd_arg = mkh.data['bound'].get('header_dict')
+    # (the header writer advances PKTIDX in the dictionary, so inside the block loop the dictionary is loop-carried:
+    #  what matters is the object the loop starts from)
+    _ha = hd_arg.single_atom() if hd_arg is not None else None
+    if _ha is not None and _ha.kind in ('loopvar', 'after') and (_ha.args[0], _ha.args[1]) in Ir.loop_init:
+        hd_arg = Ir.loop_init[(_ha.args[0], _ha.args[1])]
+        _hb = hd_arg.single_atom()
+        if _hb is not None and _hb.kind in ('loopvar', 'after') and (_hb.args[0], _hb.args[1]) in Ir.loop_init:
+            hd_arg = Ir.loop_init[(_hb.args[0], _hb.args[1])]       # nested file / block loops
     flows = hd_arg is not None and mentions(hd_arg, lambda a: a.kind == 'call' and a.args[0] == B + '._header_populate_configuration')
     ctx.ob('ORDER', 'the dictionary written by _make_header is the one returned by the configuration step', rec, flows,
            {'arg': pretty(hd_arg)[:200] if hd_arg is not None else None}, node=mkh.node)
